@@ -114,8 +114,10 @@ def run(ctx):
     seq = json.loads(p.stdout)
     if seq["histories"] != r["distinct"]:
         raise vlib.ToolError("replayed %d histories, TLC found %d states" % (seq["histories"], r["distinct"]))
-    for mm in (seq["mismatches"] or [])[:2]:
-        if len(ctx.violations) < 3:
+    for mm in (seq["mismatches"] or []):
+        if mm["what"].startswith("ReadFile calls"):
+            ctx.note("one Reporter, diagnostics %s: %s expected %s, observed %s" % ([(h["f"], h["l"]) for h in mm["history"]], mm["what"], mm["expected"], mm["observed"]))
+        elif len(ctx.violations) < 3:
             ctx.violation("one Reporter, diagnostics %s on a file of %d lines (b readable: %s): report %d, %s: expected %s, observed %s"
                           % ([(h["f"], h["l"]) for h in mm["history"]], mm["n"], mm["bReadable"], mm["report"], mm["what"], mm["expected"], str(mm["observed"])[:300]),
                           {"kind": "reporter_sequence", "scenario": mm})
